@@ -1,0 +1,25 @@
+// Copyright 2023-2026 Buf Technologies, Inc.
+//
+// Licensed under the Apache License, Version 2.0 (the "License");
+// you may not use this file except in compliance with the License.
+// You may obtain a copy of the License at
+//
+//      http://www.apache.org/licenses/LICENSE-2.0
+//
+// Unless required by applicable law or agreed to in writing, software
+// distributed under the License is distributed on an "AS IS" BASIS,
+// WITHOUT WARRANTIES OR CONDITIONS OF ANY KIND, either express or implied.
+// See the License for the specific language governing permissions and
+// limitations under the License.
+
+//go:build !verif
+
+package vanguard
+
+import "bytes"
+
+// Buffer-pool accounting hooks; they do nothing unless built with the "verif" tag.
+
+func verifPoolGet(*bytes.Buffer, bool)           {}
+func verifPoolPut(*bytes.Buffer)                 {}
+func verifPoolWrap(*bytes.Buffer, *bytes.Buffer) {}
